@@ -15,3 +15,12 @@ package vsix
 //@   pure
 //@   ensures @nothing_under_the_digital_signature_directory_counts_as_payload purecallb("strings.HasPrefix", fp, "package/services/digital-signature/") ==> !ret0
 //@   ensures @package_plumbing_is_not_payload fp == "[Content_Types].xml" || fp == "_rels/" ==> !ret0
+//@
+//@ func checkManifest
+//@   property C02
+//@   ghost bad bool = false
+//@   ghost fed bool = false
+//@   before call io.Copy(dst, src): assert @referenced_part_goes_to_the_digest_named_by_the_reference dst == iface(d) && src == iface(f)
+//@   on call crypto/hmac.Equal(a, b) ret (ok): bad = bad || !ok || !sameslice(a, refv) || !sameslice(b, refCalc)
+//@   ensures @every_reference_digest_is_compared_with_the_recomputed_one ret0 == nil ==> !bad
+//@   loop 0 sig "for _, ref := range m.References" invariant !bad
